@@ -30,6 +30,7 @@ class World:
         for i in range(n_iter):
             e = iteration.Engine(name=f"it{i}", functions={"vid": lambda x: x})
             self.engines[("it", i)] = self.reg.add_engine(e, "it", i)
+        self.leaf_objs = {}
 
     def engine(self, key):
         return self.engines[key]
@@ -103,6 +104,20 @@ def apply_un(rel, o):
 def build_impl(p, w: World):
     k = p[0]
     if k == "leaf":
+        # one leaf object per leaf id: a leaf used twice in a program is the SAME relation (and payload) both times
+        if p[1] not in w.leaf_objs:
+            w.leaf_objs[p[1]] = _build_leaf(p, w)
+        return w.leaf_objs[p[1]]
+    return _build_node(p, w)
+
+
+def _build_leaf(p, w):
+    return _build_node(p, w)
+
+
+def _build_node(p, w: World):
+    k = p[0]
+    if k == "leaf":
         n, eng, cols, rows = p[1:5]
         name = f"L{n}"
         w.reg.names[name] = n
@@ -141,6 +156,9 @@ def run_impl(p):
     try:
         rows = [dict(r) for r in rel.engine.execute(rel)]
         out["rows"] = ("ok", rows)
+        # executing again (same objects, same leaf payloads) must give the same rows
+        again = [dict(r) for r in rel.engine.execute(rel)]
+        out["repeat_differs"] = again != rows
     except Exception as e:  # noqa: BLE001
         out["rows"] = ("err", exc_name(e))
     return out
@@ -195,6 +213,9 @@ def gen_prog(rng, length, counter=None, cols=None, eng=("it", 0), allow_chain=Tr
         if allow_chain and r < 0.08:
             counter[0] += 1
             other = gen_leaf(rng, counter[0], cur, eng, loose=loose, special=special)
+            first = leaves(p)[0]
+            if rng.random() < 0.4 and set(first[3]) == cur and first[2] == eng:
+                other = first          # the SAME leaf again: both occurrences share one payload object
             if rng.random() < 0.5:
                 o, c2 = gen.gen_op(rng, cur, weights=[0, 2, 0, 3, 3, 3])
                 other = ("un", o, other)
